@@ -12,6 +12,14 @@ def coords(track):
         [(track.getObs(i).position.getX(), track.getObs(i).position.getY()) for i in range(track.size())]
 
 
+def mutate_path(p):
+    """what a caller may do with a path it received: move every point of it in place"""
+    for i in range(p.size()):
+        pos = p.getObs(i).position
+        pos.setX(pos.getX() + 3.5)
+        pos.setY(pos.getY() - 1.25)
+
+
 def hop_candidates(topo, u, v, style):
     """edges traversable from u to v with their polyline oriented along the direction of travel"""
     out = []
@@ -87,6 +95,20 @@ class C07(Check):
                         r = rng.random()
                         if r < {1: 1.0, 2: 0.5, 3: 0.02}[k] * (1 if tier == 'quick' else 4):
                             js.append(dict(kind='path', topo=topo, s=s, t=t, style='plain', cut=True))
+        # value-kind probes: nodes and edges identified by the integers 0, 1, 2 (0 is falsy); aliasing probes: the path returned by the first
+        # query is translated in place by the caller before the same query is asked again
+        for k in (1, 2, 3):
+            for ti, topo in enumerate(netlib.topologies(N3, k)):
+                if k == 3 and (ti % (41 if tier == 'quick' else 5)) != 0:
+                    continue
+                if k == 2 and tier == 'quick' and ti % 3 != 0:
+                    continue
+                it = netlib.int_ids(topo)
+                for s in (0, 1, 2):
+                    for t in (0, 1, 2):
+                        if s != t:
+                            js.append(dict(kind='path', topo=it, s=s, t=t, style='mid', ids='int'))
+                            js.append(dict(kind='path', topo=topo, s='n%d' % s, t='n%d' % t, style='mid', mutate=True))
         # a dense 5-node multigraph (three parallel edges, mixed orientations): most weights concrete, the parallel and two further
         # weights symbolic, so that one search performs several decrease-key operations (priority-queue clean-up paths)
         dense = [('n0', 'n1', 0), ('n1', 'n2', 0), ('n0', 'n1', 0), ('n0', 'n3', 1), ('n1', 'n2', 1), ('n1', 'n0', 0), ('n1', 'n3', 0), ('n1', 'n4', 0), ('n3', 'n2', 0)]
@@ -114,9 +136,10 @@ class C07(Check):
         fx = {int(k): v for k, v in (job.get('fixed') or {}).items()}
         W = [fx[i] if i in fx else eng.real('w%d' % i, 0, 30 if fx else WMAX) for i in range(len(topo))]
         Wz = [zreal(w) for w in W]
-        nodes = _nodes(topo)
+        ints = job.get('ids') == 'int'
+        nodes = _nodes(topo, base=(0, 1, 2)) if ints else _nodes(topo)
         style = job['style']
-        net = netlib.build(topo, W, nodes, style)
+        net = netlib.build(topo, W, nodes, style, int_edge_ids=ints)
         s, t = job['s'], job['t']
         sums = netlib.walk_sums(topo, s, t, Wz)
         kw = {}
@@ -159,14 +182,17 @@ class C07(Check):
             ok = z3.Or([(z3.Sum([Wz[i] for i in q]) if len(q) > 1 else Wz[q[0]]) == d for q in seqs])
             if not ctx.prove(z3.And(ok, netlib.is_min(d, sums)), 'weights of the edges used sum to the shortest distance (query %d)' % rnd):
                 return
+            if job.get('mutate') and rnd == 1:
+                mutate_path(p)
 
     def concrete(self, job, inp):
         topo = [tuple(e) for e in job['topo']]
         fx = {int(k): v for k, v in (job.get('fixed') or {}).items()}
         W = [float(fx[i]) if i in fx else float(inp['w%d' % i]) for i in range(len(topo))]
-        nodes = _nodes(topo)
+        ints = job.get('ids') == 'int'
+        nodes = _nodes(topo, base=(0, 1, 2)) if ints else _nodes(topo)
         style = job['style']
-        net = netlib.build(topo, W, nodes, style)
+        net = netlib.build(topo, W, nodes, style, int_edge_ids=ints)
         D = netlib.floyd(topo, W, nodes)
         s, t = job['s'], job['t']
         true = D[(s, t)]
@@ -201,6 +227,8 @@ class C07(Check):
                 return dict(violation='geometry %r is not the chained travel-oriented polylines along %r (query %d)' % (xy, npth, rnd), outputs=outputs)
             if not any(abs(sum(W[i] for i in q) - true) <= 1e-9 * max(1, true) for q in seqs):
                 return dict(violation='edges used %r weigh %r, shortest distance is %r (query %d)' % (seqs, [sum(W[i] for i in q) for q in seqs], true, rnd), outputs=outputs)
+            if job.get('mutate') and rnd == 1:
+                mutate_path(p)
         return dict(violation=None, outputs=outputs)
 
 
